@@ -2,6 +2,7 @@ import Oq3.Driver.Types
 import Oq3.Driver.Symbols
 import Oq3.Driver.Lex
 import Oq3.Driver.Parse
+import Oq3.Driver.Sema
 
 open Oq3.Driver
 
@@ -24,6 +25,7 @@ def main (args : List String) : IO UInt32 := do
   | ["types-guards"] => loop stdin stdout typesGuards; return 0
   | ["symtab"] => loop stdin stdout symtabLine; return 0
   | ["parse"] => loop stdin stdout parseLine; return 0
+  | ["sema"] => loop stdin stdout semaLine; return 0
   | ["lex", uc] => do
       let tab ← readUClass uc
       loop stdin stdout (lexLine tab); return 0
